@@ -84,11 +84,12 @@ func execSeqSM(r *hx.Run, ops []string) string {
 					op, p, w0, r0, p0, w1, r1, p1, ops), sig("api", "StarvingMutex."+op, "oracle", "panic-corrupts-state"))
 			}
 			ans = append(ans, "panic", fmt.Sprint(w1), fmt.Sprint(r1), fmt.Sprint(p1))
-			// ... and whatever the mutex grants afterwards still respects the holders.  The code as it is leaves its
-			// internal mutex locked (nothing is ever granted again); a mutex that stays usable is probed.
+			// ... the internal mutex is free again, and whatever the mutex grants afterwards still respects the holders.
 			if !im.TryLock() {
 				ans = append(ans, "frozen")
 				r.Count("seq-sm-after-panic:frozen")
+				r.Fail("panic-corrupts-state", fmt.Sprintf("StarvingMutex.%s panicked (%s) and left the internal mutex locked: every later call blocks for ever, the holders can never release (sequence %v)",
+					op, p, ops), sig("api", "StarvingMutex."+op, "oracle", "panic-corrupts-state", "trigger", "internal-mutex-left-locked"))
 
 				break
 			}
@@ -172,14 +173,30 @@ func dagReg(d *syncutils.DAGMutex[int]) string {
 	return strings.Join(cs, ",") + ":" + string(present) + ":" + strings.Join(locks, ",")
 }
 
-// dagBook is the plain holder bookkeeping of the sequential DAGMutex runs (independent of Lean): who holds what, how
-// often an entity is registered, and which entities are frozen (a StarvingMutex method panicked inside its critical
-// section: its internal mutex stays locked and every later call on that entity blocks).
+// dagLockedInternal returns an entity (0..7) whose StarvingMutex has its internal mutex locked although no call is in
+// flight, or -1.
+func dagLockedInternal(d *syncutils.DAGMutex[int]) int {
+	mutexes := *(**shrinkingmap.ShrinkingMap[int, *syncutils.StarvingMutex])(fieldPtr(d, "mutexes"))
+	for x := 0; x < 8; x++ {
+		if mu, ok := mutexes.Get(x); ok {
+			im := (*sync.Mutex)(fieldPtr(mu, "mutex"))
+			if !im.TryLock() {
+				return x
+			}
+			im.Unlock()
+		}
+	}
+
+	return -1
+}
+
+// dagBook is the plain holder bookkeeping of the sequential DAGMutex runs (independent of Lean): who holds what and how
+// often an entity is registered.  A panic changes none of it (a StarvingMutex method that panics releases its internal
+// mutex first), except that a wrong mode at the k-th id of RUnlock has released the k-1 read locks before it.
 type dagBook struct {
-	w      map[int]bool
-	rd     map[int]int
-	reg    map[int]int
-	frozen map[int]bool
+	w   map[int]bool
+	rd  map[int]int
+	reg map[int]int
 }
 
 // expect: what the call must do given the bookkeeping — "ok", "block", "panic:lookup" (not registered often enough:
@@ -190,7 +207,7 @@ func (b *dagBook) expect(op string, xs []int) string {
 	case "lock":
 		x := xs[0]
 		b.reg[x]++
-		if b.frozen[x] || b.w[x] || b.rd[x] > 0 {
+		if b.w[x] || b.rd[x] > 0 {
 			return "block"
 		}
 		b.w[x] = true
@@ -199,7 +216,7 @@ func (b *dagBook) expect(op string, xs []int) string {
 			b.reg[x]++
 		}
 		for _, x := range xs {
-			if b.frozen[x] || b.w[x] {
+			if b.w[x] {
 				return "block"
 			}
 			b.rd[x]++
@@ -209,12 +226,7 @@ func (b *dagBook) expect(op string, xs []int) string {
 		if b.reg[x] == 0 {
 			return "panic:lookup"
 		}
-		if b.frozen[x] {
-			return "block"
-		}
 		if !b.w[x] || b.rd[x] > 0 {
-			b.frozen[x] = true
-
 			return "panic:wrong-mode"
 		}
 		b.w[x] = false
@@ -228,12 +240,7 @@ func (b *dagBook) expect(op string, xs []int) string {
 			}
 		}
 		for _, x := range xs {
-			if b.frozen[x] {
-				return "block"
-			}
 			if b.rd[x] == 0 || b.w[x] {
-				b.frozen[x] = true
-
 				return "panic:wrong-mode"
 			}
 			b.rd[x]--
@@ -262,7 +269,7 @@ func (b *dagBook) lockState() string {
 // execSeqDag: cont = go on after a recovered misuse panic when the registry mutex is free again (composed model).
 func execSeqDag(r *hx.Run, ops []string, cont bool) string {
 	d := syncutils.NewDAGMutex[int]()
-	b := &dagBook{w: map[int]bool{}, rd: map[int]int{}, reg: map[int]int{}, frozen: map[int]bool{}}
+	b := &dagBook{w: map[int]bool{}, rd: map[int]int{}, reg: map[int]int{}}
 	var ans []string
 	misused := "" // the call whose panic was recovered ...
 	trigger := "" // ... and where it struck
@@ -313,7 +320,7 @@ func execSeqDag(r *hx.Run, ops []string, cont bool) string {
 
 				return strings.Join(append(ans, "panic"), " ")
 			}
-			r.Fail("exclusion", fmt.Sprintf("after the recovered panic of DAGMutex.%s: %s(%s) returned although the entity is still held or its mutex is frozen (the failed call released nothing); sequence %v", misused, op, f[1], ops),
+			r.Fail("exclusion", fmt.Sprintf("after the recovered panic of DAGMutex.%s: %s(%s) returned although the entity is still held (the failed call released nothing); sequence %v", misused, op, f[1], ops),
 				sig("api", "DAGMutex."+misused, "oracle", "granted-after-misuse-panic", "trigger", trigger))
 
 			return strings.Join(append(ans, "ok"), " ")
@@ -345,6 +352,10 @@ func execSeqDag(r *hx.Run, ops []string, cont bool) string {
 				break
 			}
 			d.Mutex.Unlock()
+			if x := dagLockedInternal(d); x >= 0 {
+				r.Fail("panic-corrupts-state", fmt.Sprintf("DAGMutex.%s(%s) panicked (%s) and left the internal mutex of entity %d's StarvingMutex locked: every later call on that entity blocks; sequence %v",
+					op, f[1], p, x, ops), sig("api", "DAGMutex."+op, "oracle", "panic-corrupts-state", "trigger", "internal-mutex-left-locked"))
+			}
 			reg1 := dagReg(d)
 			ans = append(ans, "live:"+reg1)
 			r.Count("seq-dag-after-panic:live")
